@@ -137,11 +137,7 @@ func (x *Exec) walkWithInvariant(c *CallCtx, d collDesc, h int, fn *ssa.Function
 	}
 	// havoc what the callback may write
 	cells := map[int]bool{}
-	for idx := range x.closureWrites(fn) {
-		if idx < len(free) {
-			x.markReachable(st, free[idx], cells)
-		}
-	}
+	x.cellsWrittenBy(st, fn, free, cells, 0)
 	for cnum := range cells {
 		if tv, ok := st.cells[cnum].(TV); ok {
 			st.cells[cnum] = x.freshTV("walkcell", tv.Ty, st)
